@@ -136,6 +136,22 @@ theorem C19_hash_input_is_prefix (R : Rlp) (s₁ s₂ : Src) (w₁ : s₁.wf) (w
     (hh : t₁.hashInput = t₂.hashInput) (hs : t₁.sigs = t₂.sigs) : consumed s₁ s₁' = consumed s₂ s₂' := by
   rw [(C19_hash_unsigned R s₁ w₁ t₁ s₁' h₁).2.1 n₁, (C19_hash_unsigned R s₂ w₂ t₂ s₂' h₂).2.1 n₂, hh, hs]
 
+/-- **The hash input determines the signed content** (Ontology shapes): two accepted transactions that are hashed from
+the same bytes have the same version, type, nonce, gas price, gas limit, payer and payload — so, for a collision-free
+hash, equal hashes mean equal unsigned content (`C19_hash_sig_independent` is the converse). -/
+theorem C19_hash_binds_fields (R : Rlp) (s₁ s₂ : Src) (w₁ : s₁.wf) (w₂ : s₂.wf) (t₁ t₂ : Tx) (s₁' s₂' : Src)
+    (h₁ : deserialize R s₁ = .ok t₁ s₁') (h₂ : deserialize R s₂ = .ok t₂ s₂')
+    (n₁ : t₁.txType ≠ 0xd3) (n₂ : t₂.txType ≠ 0xd3)
+    (hh : t₁.hashInput = t₂.hashInput) : t₁.unsigned = t₂.unsigned := by
+  obtain ⟨_, post1⟩ := post_of_ok w₁ h₁
+  obtain ⟨_, post2⟩ := post_of_ok w₂ h₂
+  rcases post1 with ⟨_, _, hi1, wf1, _, _⟩ | ⟨_, e, _, _, hfrom, _⟩
+  · rcases post2 with ⟨_, _, hi2, wf2, _, _⟩ | ⟨_, e, _, _, hfrom, _⟩
+    · rw [hi1, hi2] at hh
+      exact serUnsigned_inj _ _ wf1 wf2 hh
+    · exact absurd (fromEip155_ok hfrom).2.1 n₂
+  · exact absurd (fromEip155_ok hfrom).2.1 n₁
+
 /-- **Size limit**: `TransactionFromRawBytes` rejects every input longer than `MAX_TX_SIZE` … -/
 theorem C19_size_raw (R : Rlp) (raw : Bytes) (h : raw.length > MAX_TX_SIZE) : fromRawBytes R raw = .err .invalid := by
   unfold fromRawBytes
@@ -167,5 +183,25 @@ example : exRlp.canonical := by
   split at h
   · rename_i hc; injection h with h; subst h; exact hc.symm
   · cases h
+
+
+/-- invoke transaction (code `ab cd`) with one signature entry, embedded at offset 1 of a longer buffer -/
+def exBytes : Bytes := [9, 0x00, 0xd1] ++ List.replicate 40 0 ++ [2, 0xab, 0xcd, 0, 1, 1, 0x51, 0, 7, 7]
+
+example : (match deserialize exRlp ⟨exBytes, 1⟩ with
+    | .ok t s' => t.sigs == [([0x51], [])] && s'.off == 51 && t.payload == .invoke [0xab, 0xcd] &&
+        t.raw == (exBytes.drop 1).take 50 && t.hashInput == (exBytes.drop 1).take 46
+    | _ => false) = true := by decide +kernel
+
+/-- the EIP-155 shape -/
+example : (match deserialize exRlp ⟨[0x00, 0xd3, 1, 0xc0, 5], 0⟩ with
+    | .ok t s' => t.nonce == 7 && t.gasPrice == 2 && s'.off == 4 && t.raw == [0x00, 0xd3, 1, 0xc0] && t.txType == 0xd3
+    | _ => false) = true := by decide +kernel
+
+/-- non-canonical encodings of the same fields are rejected: widened attribute count, widened signature count -/
+example : (match deserialize exRlp ⟨[0x00, 0xd1] ++ List.replicate 40 0 ++ [0, 0xfd, 0, 0, 0], 0⟩,
+                 deserialize exRlp ⟨[0x00, 0xd1] ++ List.replicate 40 0 ++ [0, 0, 0xfd, 0, 0], 0⟩ with
+    | .err .irregular, .err .irregular => true
+    | _, _ => false) = true := by decide +kernel
 
 end OntVerif.Props.C19
